@@ -1,0 +1,61 @@
+//! Seams for the deterministic simulator under /verif.
+//!
+//! Compiled only with `--cfg tablegen_lsp_verif`; the shipped build never sees this module.
+//! The simulator installs one [`SimHooks`] object per process. No dependency is added: every
+//! hook is a plain callback.
+
+use std::any::Any;
+use std::path::Path;
+use std::sync::OnceLock;
+
+/// The blocking resources the simulator mirrors with a "ghost" lock.
+#[derive(Debug, Clone, Copy, Eq, PartialEq, Hash, Ord, PartialOrd)]
+pub enum LockId {
+    /// salsa's revision lock: shared by every snapshot, exclusive for every input write.
+    SalsaRevision,
+    /// the `RwLock<Vfs>` shared by the main loop and its tasks.
+    Vfs,
+}
+
+/// Opaque guard; dropping it releases the ghost lock.
+pub type Guard = Box<dyn Any + Send>;
+
+pub trait SimHooks: Send + Sync {
+    /// Blocks (inside the simulator) until the lock can be taken without blocking for real.
+    fn lock_acquire(&self, lock: LockId, exclusive: bool) -> Guard;
+    /// Runs `f` on a simulator-owned task (stands in for the blocking thread pool).
+    fn spawn(&self, f: Box<dyn FnOnce() + Send>);
+    /// Stands in for `std::fs::read_to_string`.
+    fn read_file(&self, path: &Path) -> Option<String>;
+    /// A named scheduling point.
+    fn point(&self, label: &'static str);
+}
+
+struct NoHooks;
+
+impl SimHooks for NoHooks {
+    fn lock_acquire(&self, _: LockId, _: bool) -> Guard {
+        Box::new(())
+    }
+    fn spawn(&self, f: Box<dyn FnOnce() + Send>) {
+        std::thread::spawn(f);
+    }
+    fn read_file(&self, path: &Path) -> Option<String> {
+        std::fs::read_to_string(path).ok()
+    }
+    fn point(&self, _: &'static str) {}
+}
+
+static HOOKS: OnceLock<Box<dyn SimHooks>> = OnceLock::new();
+
+/// Installs the process-wide hooks. Only the first call has an effect.
+pub fn install(hooks: Box<dyn SimHooks>) {
+    let _ = HOOKS.set(hooks);
+}
+
+pub fn hooks() -> &'static dyn SimHooks {
+    match HOOKS.get() {
+        Some(hooks) => &**hooks,
+        None => &NoHooks,
+    }
+}
